@@ -304,6 +304,7 @@ func init() {
 		Quick: []Job{
 			{Pkg: "./zz_verif/wire", Func: "ZZBinaryHeader", Reach: []string{"loop-returned", "contradictory-frame"}, Bounds: "all 2^8 opcodes x 2^16 key lengths x 2^8 extras lengths x 2^32 total lengths x opaque/cas/vbucket, body <= 23 bytes"},
 			{Pkg: "./zz_verif/wire", Func: "ZZTextLine", Params: map[string]int64{"len": 6}, Reach: []string{"loop-returned"}, Bounds: "every 6-byte ASCII command line"},
+			{Pkg: "./zz_verif/wire", Func: "ZZBinaryTruncated", Reach: []string{"loop-returned"}, Bounds: "10 kinds of well-formed binary requests (incl. quiet-get batches) cut at every byte offset, then EOF; afterwards a request on another connection decodes normally; pooled headers must not be returned twice"},
 			{Pkg: "./zz_verif/wire", Func: "ZZTextManyLines", Reach: []string{"loop-returned"}, Bounds: "200 empty / blank / one-letter / bare-LF lines trickling in 16 bytes per read, then a version command: the call depth at the socket reads does not grow with the number of lines; last command answered"},
 			{Pkg: "./zz_verif/wire", Func: "ZZTextTruncatedSet", Reach: []string{"loop-returned"}, Bounds: "text set/add/replace/append/prepend with a 2-byte data block; stream ends at every offset from the end of the command line to the end of the trailer; data and trailer bytes arbitrary"},
 		},
